@@ -119,7 +119,7 @@ def run(ctx):
     for r in fails + fails2:
         ctx.violation(r["sig"], describe(r), r)
     c1, c2 = summ["counts"], summ2["counts"]
-    if c1.get("frames_delivered", 0) == 0 or c1.get("error_outcomes", 0) == 0:
+    if not ctx.violations and (c1.get("frames_delivered", 0) == 0 or c1.get("error_outcomes", 0) == 0):
         raise vlib.ToolError("vacuous replay: no frames delivered or no error outcomes")
     ctx.cov["evaluations"] += c1["evaluations"] + c2["evaluations"]
     ctx.cov["distinct_nontrivial"] += c1.get("nontrivial", 0) + c2.get("nontrivial", 0)
@@ -137,7 +137,7 @@ def run(ctx):
     for r in ffails:
         ctx.violation(r["sig"], describe(r), r)
     fc = fsumm["counts"]
-    if not any(k.startswith("class:") and "declared=>=2^31" in k for k in fc) or fc.get("error_outcomes", 0) == 0:
+    if not ctx.violations and (not any(k.startswith("class:") and "declared=>=2^31" in k for k in fc) or fc.get("error_outcomes", 0) == 0):
         raise vlib.ToolError("vacuous random run: no huge declared lengths or no error outcomes")
     ctx.cov["evaluations"] += fc["evaluations"]
     ctx.cov["random_bytes"] = {"inputs": fc["inputs"], "frames_delivered": fc["frames_delivered"],
